@@ -138,6 +138,8 @@ def run(tier, seed):
         job.add(Harness("linear_between_f64", "C15.Quantile.linear.between_f64", F + "::Quantile::linear"))
     obs += guarded("C15.engine.job.run@L138", lambda: job.run())
     obs += guarded("C15.engine.extreme_magnitudes_corpus@L139", lambda: extreme_magnitudes_corpus())
+    import rs_crosscheck
+    obs += guarded("C15.engine.rs_crosscheck", lambda: rs_crosscheck.crosscheck("C15", ['Quantile']))
     meta = {
         "level": "proof",
         "checker_cmd": "./check C15 (rsx -> RS executor -> z3; cargo kani on a scratch copy + contracts/kani/quantile.rs)",
